@@ -113,6 +113,7 @@ func RunCheck(spec *CheckSpec, tier string, seed int64) int {
 		logPath  string
 		timeout  time.Duration
 		shard    int
+		tag      string
 	}
 	runChild := func(ph PhaseSpec, shard, nshards int) childOut {
 		tag := ph.Name
@@ -122,6 +123,7 @@ func RunCheck(spec *CheckSpec, tier string, seed int64) int {
 		out := filepath.Join(workDir, tag+".result.json")
 		logPath := filepath.Join(workDir, tag+".log")
 		os.Remove(out)
+		os.Remove(inflightPath(workDir, tag))
 		bin := binFor(ph.Flavour)
 		args := []string{"child", spec.ID, ph.Name, "--tier", tier, "--seed", fmt.Sprint(seed), "--out", out, "--shard", fmt.Sprint(shard), "--nshards", fmt.Sprint(nshards)}
 		timeout := ph.Timeout
@@ -154,7 +156,7 @@ func RunCheck(spec *CheckSpec, tier string, seed int64) int {
 		cmd.Stdout, cmd.Stderr = logf, logf
 		err := cmd.Run()
 		logf.Close()
-		co := childOut{err: err, timedOut: ctx.Err() == context.DeadlineExceeded, logPath: logPath, timeout: timeout, shard: shard}
+		co := childOut{tag: tag, err: err, timedOut: ctx.Err() == context.DeadlineExceeded, logPath: logPath, timeout: timeout, shard: shard}
 		if b, rerr := os.ReadFile(out); rerr == nil {
 			json.Unmarshal(b, &co.res)
 		}
@@ -242,7 +244,7 @@ func RunCheck(spec *CheckSpec, tier string, seed int64) int {
 				if strings.Contains(sig, "harness-setup") {
 					merged.Inconcl = append(merged.Inconcl, fmt.Sprintf("%s: child could not start: %v: %s", ph.Name, err, lastLines(logTail, 5)))
 				} else {
-					inflight := ReadInflight(workDir, ph.Name)
+					inflight := ReadInflight(workDir, co.tag)
 					addViolation(ph, Violation{Sig: sig, What: fmt.Sprintf("child process died (%v) in phase %s; %d in-flight inputs recovered; log tail: %s", err, ph.Name, len(inflight), lastLines(logTail, 12))}, inflight, logTail)
 				}
 			}
